@@ -210,6 +210,11 @@ def main():
                                 f.write(data[: rng.randrange(0, len(data) + 1)])
                             lost.append(["truncated", rel])
                 r["lost"] = lost
+            elif op == "rewrite_xml":
+                for rel in sorted(step["tree"]):
+                    pth = os.path.join(step["dir"], rel)
+                    with _real_open(pth, "w", encoding="utf-8") as f:
+                        f.write(step["tree"][rel])
             elif op == "chdir":
                 os.chdir(step["dir"])
             elif op == "rmtree":
